@@ -520,6 +520,8 @@ WS = [chr(c) for c in (9, 10, 11, 12, 13, 28, 29, 30, 31, 32, 133, 160, 5760, 81
 UNI_IN = list('éÉöÖłŁдДẞ') + ['ı', 'ſ', 'µ', 'K', 'ǅ', 'ǆ', '中', 'ב', '٣', '²', '①', 'ⅷ', '́', 'ς', 'σ']
 # outside: upper- or lower-case form of another length, and the capital sigma
 UNI_OUT = ['ß', 'İ', 'ŉ', 'ǰ', 'ﬁ', 'ΐ', 'Σ', 'ﬃ', 'և']
+WIDTH_STRINGS = ['{x\\y}', '{x\\}', '{xy\\}', '{x \\y z}', '{x{\\y}}', '{{\\y}}', '{x\\y\\z}', '{x}{\\y}', "{x\\y}{\\'z}", '{x{y\\z}w}', "{\\'c}",
+                 "{\\'c{d}}", '{\\TeX book}', '{\\ss}', '{\\o}', '{x\\y', '{x{\\y', '{\\x', '}{x\\y}', '{x\\y}}', 'a\\b']
 NAMES = ["\\'Emile Zola", "Jean--Pierre", "-A", "A-", "--", "Rodr\\'{\\i}guez", "{\\TeX}-x", "\\", "\\\\a", "{\\}x", "1-2-a", "a-{b-c}-d",
          "Jean-{\\'E}mile", "{-}a", "\\LaTeX Project Team", "123 123 123 {}", "{Andrew} Blake", "d'-Aviano", "é-Édouard", "毛-泽东", "-ß"]
 
@@ -574,6 +576,10 @@ def gen_cases(tier, rng, info):
     # names with a brace-level-0 backslash, empty hyphen pieces, special characters (first letter / abbreviation)
     for s in NAMES:
         cases.append(_mk(s, MODE_POOL[:9]))
+    # width: ordinary groups with a backslash further in (every character counts), special characters next to them, unclosed groups
+    for s in WIDTH_STRINGS:
+        for tmpl in ('%s', 'a%sb', '{q}%s', "{\\'e}%s", '{%s}', 'x{y%sz}w'):
+            cases.append(_mk(tmpl.replace('%s', s)))
     # the letters whose case mapping changes the length (no model: the clauses on the implementation alone)
     for c in UNI_OUT + UNI_IN:
         for tmpl in ('%s', 'a%sB', '{\\x a%s}', '{%s}', ': %s', '%s-%s'):
@@ -639,6 +645,8 @@ THEOREMS = {
     'C12_abbreviate_spec': '[anchored mechanism][model wiring] unfolds the model, success direction only: IF bibtex_abbreviate returns r then r = the first letters (C12_first_letter_spec) of the stripped top-level hyphen pieces (C12_split_leftmost), empty ones skipped, order kept, joined with the delimiter (default ".-"); conjunct 3 is a tautology',
     'C12_width_plain': '[anchored mechanism] width of a brace-free string = sum of the character widths',
     'C12_width_special': '[anchored mechanism] a closed special character: its two braces + the characters after the first one of its command (inner braces not counted) - 1000',
+    'C12_width_onepass': "[anchored mechanism] bibtex_width WITHOUT the scanner: on every string within 100 nesting levels it is the one-pass width Spec.widthOnePass (a brace counter only): outside a special character EVERY character adds its own width, braces and backslashes included; a special character is a { at brace level 0 directly followed by a backslash and nothing else (repair C03-2); what its text adds is pybtex's rule (finding C03-width-special-char-contents)",
+    'C12_width_literal': '[anchored mechanism] "takes the literal literally": a string without special character (no { at brace level 0 directly followed by a backslash) within 100 nesting levels has the sum of the widths of its characters, whatever they are - {x\\y} counts its five characters',
 }
 
 LEVEL_TEXT = ('Machine-checked proofs (Lean 4) about the executable model of pybtex/bibtex/utils.py (+ the mode handling of change.case$), '
@@ -670,7 +678,9 @@ LEVEL_NOTE = ('Trusted: Lean kernel; axioms propext/Classical.choice/Quot.sound 
               'letter whose case mapping is not one character (known finding C12-case-length-changing-letter); such strings and the '
               'capital sigma are outside the case-changing model (caseDomain), the clauses are evaluated on the implementation alone '
               'there. The splitting theorems for unbalanced input describe the code AFTER the repair proposed_fixes/C12-1 '
-              '(_find_closing_brace: an unclosed group extends to the end of the string). The first-letter / abbreviation / width theorems '
+              '(_find_closing_brace: an unclosed group extends to the end of the string). bibtex_width is described AFTER the repair proposed_fixes/C03-2 (a backslash inside an ordinary group '
+              'is no special character); it is proved equal to a scanner-free one-pass width (C12_width_onepass), whose treatment of the TEXT of a special '
+              'character is pybtex\'s, not BibTeX\'s (finding C03-width-special-char-contents, recorded for C03). The first-letter / abbreviation / width theorems '
               'and oracle clauses are about the anchored mechanism; the statement of the property has no clause for them.  Theorems marked '
               '[model wiring] (C12_prefix_nonpos, C12_split_strip conjuncts 1-2, C12_case_domain, C12_abbreviate_spec) restate a '
               'definition of the model or evaluate it on literals; what they say about the code is carried by the correspondence check.  '
